@@ -120,6 +120,8 @@ def angle(r, core=False):
 
 
 def factor(r, core=False):
+    if r.random() < 0.04:
+        return mpf(0)  # the exactly-zero stratum (v * mask, scale(0)): the zero vector
     s = r.choice([1, 1, -1])
     v = s * dyadic(r, 0.1, 5)
     return v
@@ -139,6 +141,8 @@ def beta(r, core=False, mp=True):
 
 def gamma(r, core=False):
     s = r.choice([1, -1])
+    if r.random() < 0.04:
+        return mpf(s)  # gamma = +-1 exactly: the identity boost
     if core:
         return s * dyadic(r, 1.05, 3)
     return s * r.choice([dyadic(r, 1.01, 5), dyadic(r, 5, 100)])
